@@ -635,12 +635,15 @@ def correspond(res, rng, tier):
   t2 = time.time()
   dis2, st2, samples2 = k2_end_to_end(drv, rng, tier)
   t_k2 = time.time() - t2
-  res.cov["evaluations"] = st0["cases"] + st1["variants"] + st1s["cases"]
+  t2 = time.time()
+  dis3, st3 = k3_ranges(rng, tier, progs)
+  t_k3 = time.time() - t2
+  res.cov["evaluations"] = st0["cases"] + st1["variants"] + st1s["cases"] + st3["variants"]
   res.cov["distinct_nontrivial"] = st0["nontrivial"] + st1["distinct_nontrivial"] + st1s["distinct_nontrivial"]
-  res.cov["distribution"] = {"K0_lineset": st0, "K1_filter": st1, "K1_programs": len(progs), "K1s_synthetic": st1s, "K2_end_to_end": st2,
+  res.cov["distribution"] = {"K0_lineset": st0, "K1_filter": st1, "K1_programs": len(progs), "K1s_synthetic": st1s, "K2_end_to_end": st2, "K3_range_spec": st3,
                              "K_wall_s": round(time.time() - t0, 1),
                              "stage_wall_s": {"K0": round(t_k0, 1), "K1": round(t_k1, 1), "K1s": round(t_k1s, 1),
-                                              "K2": round(t_k2, 1)}}
+                                              "K2": round(t_k2, 1), "K3": round(t_k3, 1)}}
   res.cov["evaluations"] += st2["vm_runs"]
   res.cov["distinct_nontrivial"] += st2["edits"]
   res.cov["exhaustive"] = False
@@ -654,11 +657,14 @@ def correspond(res, rng, tier):
       "before/after parser output of every eligible edit.  K1s: random synthetic parser outputs through the real "
       "Director.  K2: real io.generate_pyi before/after appending '# pytype: disable=E' / '# type: ignore' to the "
       "reported line of errors of generated error-producing programs: every filter decision of the real run vs the "
-      "model, VM error stream and stub unchanged, and the property itself outside the characterised regions. "
+      "model, VM error stream and stub unchanged, and the property itself outside the characterised regions.  "
+      "K3: 1-4 stand-alone disable/enable comment lines inserted anywhere (also inside multi-line statements) into the "
+      "comment-stripped layout programs; real parser + real Director vs a source-level spec that does not use pytype "
+      "(suppressed iff the last directive at or before the line naming the class or * is a disable). "
       "distinct_nontrivial = distinct K0 sequences with mixed membership + distinct K1/K1s inputs whose answers contain "
       "both kept and suppressed + K2 edits actually run.")
   res.add_samples(samples2 + [{"K1_program": progs[0]}])
-  return dis0 + dis1 + dis1s + dis2
+  return dis0 + dis1 + dis1s + dis2 + dis3
 
 
 # ------------------------------------------------------------------------------------------------
@@ -1094,6 +1100,103 @@ def _s_filter_level(args):
                             "filter_answer": got})
               return found
   return found
+
+
+def strip_comments(src):
+  """`src` without any comment (tokenize based), or None"""
+  toks = comment_tokens(src)
+  if toks is None:
+    return None
+  lines = src.split("\n")
+  for l, cs in toks.items():
+    col = min(c[0] for c in cs)
+    lines[l - 1] = lines[l - 1][:col].rstrip()
+  out = "\n".join(lines)
+  try:
+    import ast as _ast
+    _ast.parse(out)
+  except SyntaxError:
+    return None
+  return out
+
+
+def _k3_worker(args):
+  """K3: the second sentence of the property on the real parser + real Director, against a source-level spec that
+  does not use pytype: several stand-alone disable/enable directives are inserted as comment-only lines anywhere
+  in a comment-free program (also between the lines of one multi-line statement); for every error name and every
+  line the real filter must suppress exactly when the last directive at or before the line naming the class
+  (or *) is a disable."""
+  src, seed_, n_variants = args
+  import random
+  import ast as _ast
+  common.load_pytype()
+  from pytype.directors import directors, parser
+  from pytype.errors import errors
+  mods = (directors, parser, errors)
+  rng = random.Random(seed_)
+  names = ["name-error", "wrong-arg-types", "attribute-error", "import-error"]
+  out = {"variants": 0, "queries": 0, "inside_statement": 0, "found": []}
+  src = strip_comments(src)
+  if src is None:
+    return out
+  nlines = src.count("\n")
+  with _Capture(parser) as cap:
+    for _ in range(n_variants):
+      k = rng.choice([1, 2, 2, 3, 4])
+      ls = sorted(rng.randrange(1, nlines + 2) for _ in range(k))
+      s2, dirs_txt = src, []
+      nm = rng.choice(names + ["*"])
+      for j, l in enumerate(reversed(ls)):          # insert bottom-up so earlier line numbers stay valid
+        n_here = nm if rng.random() < 0.8 else rng.choice(names + ["*"])
+        dis = rng.random() < 0.6
+        s2 = place(s2, l, "pytype: %s=%s" % ("disable" if dis else "enable", n_here), True)
+      try:
+        _ast.parse(s2)
+      except SyntaxError:
+        continue
+      toks = comment_tokens(s2) or {}
+      dirs = []
+      for l in sorted(toks):
+        for (_, t, oe) in toks[l]:
+          if oe and "pytype:" in t:
+            body = t.split("pytype:", 1)[1].strip()
+            dirs.append((l, body.startswith("disable="), {body.split("=", 1)[1]}))
+      if len(dirs) != k:
+        continue
+      try:
+        d1, po1 = build_real(mods, s2, (), cap)
+      except Exception as e:  # pylint: disable=broad-except
+        out["found"].append({"oracle": "stand-alone directives in ascending line order must not crash the Director",
+                             "src": s2, "exception": repr(e)[:200]})
+        return out
+      if d1 == "ValueError":
+        out["found"].append({"oracle": "stand-alone directives in ascending line order must not crash the Director",
+                             "src": s2})
+        return out
+      out["variants"] += 1
+      if any(g[0] == "L" and g[1] < l <= g[2] for g in po1["groups"] for (l, _, _) in dirs):
+        out["inside_statement"] += 1
+      n2 = s2.count("\n")
+      for n in names:
+        got_all = real_query(errors, d1, True, None, n, list(range(1, n2 + 2))).split(" ")
+        for l, got in zip(range(1, n2 + 2), got_all):
+          out["queries"] += 1
+          want = spec_standalone(None, dirs, n, l)
+          if got[0] in "KS" and (got[0] == "S") != want:
+            out["found"].append({"oracle": "stand-alone disable holds from its line to the matching enable / EOF "
+                                 "and nowhere else", "src": s2, "error": [n, l], "expected_suppressed": want,
+                                 "filter_answer": got, "directives": [[a, b, sorted(c)] for a, b, c in dirs]})
+            return out
+  return out
+
+
+def k3_ranges(rng, tier, progs):
+  with multiprocessing.Pool(min(16, os.cpu_count() or 4)) as pool:
+    outs = pool.map(_k3_worker, [(s, rng.randrange(1 << 30), 6 if tier == "quick" else 20) for s in progs], chunksize=1)
+  st = {"programs": len(progs), "variants": sum(o["variants"] for o in outs), "queries": sum(o["queries"] for o in outs),
+        "variants_with_directive_inside_a_statement": sum(o["inside_statement"] for o in outs)}
+  dis = [dict(f, stage="K3-range-spec") for o in outs for f in o["found"]]
+  return dis, st
 
 
 def _lineset_spec_search(rng):
